@@ -3,6 +3,7 @@ children).  Every process appends its observations to its own JSON-lines file.""
 
 from __future__ import annotations
 
+import functools
 import json
 import multiprocessing
 import os
@@ -27,6 +28,7 @@ class ProbeFailure(Exception):
 
 
 _probe = None
+_wrapped_probe = None
 _log_lock = threading.Lock()
 
 
@@ -58,6 +60,28 @@ def get_probe():
                 raise ProbeFailure(tag)  # a synchronized call that ends with an exception
 
         _probe = probe
+
+        # A function synchronized as a whole although it merely wraps (functools.wraps)
+        # one that is synchronized already: its own part of the body (the wrapper "logs to
+        # the terminal" before delegating) is a critical section too.
+        def announced(f):
+            @functools.wraps(f)
+            def wrapper(tag, depth, hold, fail=False):
+                t0 = time.monotonic_ns()
+                locktype = type(utils._tty_lock).__module__.split(".")[0] + "." + type(utils._tty_lock).__name__
+                time.sleep(0.0002)
+                try:
+                    return f(tag, depth, hold, fail)
+                finally:
+                    rec = ["I", os.getpid(), threading.get_ident(), tag + "/outer", depth, t0, time.monotonic_ns(), locktype, False]
+                    with _log_lock:
+                        with open(_log_path(), "a") as fl:
+                            fl.write(json.dumps(rec) + "\n")
+
+            return wrapper
+
+        global _wrapped_probe
+        _wrapped_probe = utils.lock_tty(announced(probe))
     return _probe
 
 
@@ -145,6 +169,8 @@ def _one_op(rnd, probe, tag, queries, compound_ok):
             probe(tag, rnd.choice([0, 1, 2]), 0, True)
         except ProbeFailure:
             pass
+    elif r < 0.6:
+        _wrapped_probe(tag, rnd.choice([0, 0, 1]), rnd.choice([0, 0.0002]))
     else:
         probe(tag, rnd.choice([0, 0, 1, 2]), rnd.choice([0, 0.0002, 0.001]))
 
@@ -251,6 +277,11 @@ def make_process(cfg, args):
         # a context's own Process class (what multiprocessing.Pool and friends use); not a
         # subclass of multiprocessing.Process
         return multiprocessing.get_context(cfg.get("ctx_method") or cfg["method"]).Process(target=child_main, args=args)
+    if how == "relay":
+        # a child that never imports the library, which in turn starts the process that does
+        from . import c14_relay
+
+        return multiprocessing.Process(target=c14_relay.relay_main, args=args)
     if how == "lazy":
         from . import c14_lazy
 
